@@ -70,7 +70,7 @@ def run_extract():
     sys.path.insert(0, os.path.join(VERIF, "tools"))
     import extract
     with Lock("lake"):
-        return extract.main(REPO, os.path.join(LEAN_DIR, "QuillModel", "Extracted.lean"))
+        return extract.main(REPO, os.path.join(LEAN_DIR, "QuillModel", "Extracted"))
 
 
 def lake_build(targets):
